@@ -51,6 +51,8 @@ type Field struct {
 	Emb bool    `json:"emb"`
 	Tag *string `json:"tag"` // embedded: optional json name
 	F   []Field `json:"f"`   // embedded: the fields of the anonymous struct
+	EOpt bool   `json:"eopt"` // embedded: tagged ",optional"
+	EPtr bool   `json:"eptr"` // embedded: pointer to the struct
 }
 
 type Type struct {
@@ -99,6 +101,9 @@ type Out struct {
 	Load2  map[string]Res    `json:"load2,omitempty"`
 	EnvOn  map[string]Res    `json:"envon,omitempty"`
 	EnvOff map[string]Res    `json:"envoff,omitempty"`
+	ByExt  map[string]Res    `json:"byext,omitempty"`  // conf.Load on c<ext>, loader chosen by the extension
+	Must   map[string]Res    `json:"must,omitempty"`   // conf.MustLoad where Load succeeded
+	Fill   *Res              `json:"fill,omitempty"`   // conf.FillDefault on a fresh value
 	Map    *Res              `json:"mapping,omitempty"`
 	Std    *Res              `json:"stdjson,omitempty"`
 }
@@ -171,9 +176,18 @@ func buildStruct(fields []Field) (reflect.Type, error) {
 			if err != nil {
 				return nil, err
 			}
+			if f.EPtr {
+				st = reflect.PointerTo(st)
+			}
 			sf := reflect.StructField{Name: fmt.Sprintf("E%d", i), Type: st, Anonymous: true}
+			name := ""
 			if f.Tag != nil {
-				sf.Tag = reflect.StructTag(`json:"` + *f.Tag + `"`)
+				name = *f.Tag
+			}
+			if f.EOpt {
+				sf.Tag = reflect.StructTag(`json:"` + name + `,optional"`)
+			} else if f.Tag != nil {
+				sf.Tag = reflect.StructTag(`json:"` + name + `"`)
 			}
 			fs = append(fs, sf)
 			continue
@@ -525,6 +539,26 @@ func loadFiles(rt reflect.Type, dir string, texts map[string]string, opts ...con
 	return res, nil
 }
 
+// extension -> format whose text is written into the file
+var extFormat = [][2]string{{".json", "json"}, {".yaml", "yaml"}, {".yml", "yaml"}, {".toml", "toml"},
+	{".YML", "yaml"}, {".Json", "json"}, {".txt", "json"}, {"", "yaml"}}
+
+func loadByExt(rt reflect.Type, dir string, texts map[string]string) (map[string]Res, map[string]Res, error) {
+	res, must := map[string]Res{}, map[string]Res{}
+	for _, ef := range extFormat {
+		p := filepath.Join(dir, "x"+ef[0])
+		if err := os.WriteFile(p, []byte(texts[ef[1]]), 0o600); err != nil {
+			return nil, nil, err
+		}
+		r := run(rt, func(t any) error { return conf.Load(p, t) })
+		res[ef[0]] = r
+		if r.Verdict == "ok" { // MustLoad exits the process on error
+			must[ef[0]] = run(rt, func(t any) error { conf.MustLoad(p, t); return nil })
+		}
+	}
+	return res, must, nil
+}
+
 func runCase(c Case, dir string) (out Out) {
 	out.ID = c.ID
 	rt, err := buildStruct(c.Type)
@@ -546,6 +580,12 @@ func runCase(c Case, dir string) (out Out) {
 		out.Map, out.Std = &m, &s
 	case "load":
 		out.Load = loadBytes(rt, texts)
+		if out.ByExt, out.Must, err = loadByExt(rt, dir, texts); err != nil {
+			out.Fail = "files: " + err.Error()
+			return
+		}
+		f := run(rt, func(t any) error { return conf.FillDefault(t) })
+		out.Fill = &f
 		if c.Doc2 != nil {
 			texts2, err := render(c.Doc2, false)
 			if err != nil {
